@@ -5,10 +5,10 @@ from .builder import Canon
 from . import frame as FR
 
 
-def find_loop(fn, P, cn, range_str, containing_call=None):
-    """(header_block, loop_blocks, latch_blocks) of `for _ in <range_str>`; optionally the loop whose body calls
-    a function with the given last name (disambiguates loops over equal ranges)"""
-    nx = [b for b in FR.calls_of(fn, 'next') if range_str in FR.arg_canon(fn, P, cn, b, 0)]
+def find_loop(fn, P, cn, range_str, containing_call=None, defines=None):
+    """(header_block, loop_blocks, latch_blocks) of `for _ in <range_str>` (or the counted while-loop over that range);
+    optionally the loop whose body calls a function with the given last name / assigns the named locals (disambiguates
+    loops over equal ranges)"""
     nl = dict(fn.natural_loops())
     def body_of(b):
         # the iterator's next() call sits in the loop header block (or the block leading to its switch)
@@ -16,19 +16,36 @@ def find_loop(fn, P, cn, range_str, containing_call=None):
             return nl[b]
         cands = [(h, body) for h, body in nl.items() if b in body]
         return min(cands, key=lambda x: len(x[1]))[1] if cands else None
-    if containing_call and len(nx) > 1:
+    def header_of(b):
+        if b in nl:
+            return b
+        cands = [(h, body) for h, body in nl.items() if b in body]
+        return min(cands, key=lambda x: len(x[1]))[0] if cands else None
+    heads = []
+    for b in FR.calls_of(fn, 'next'):
+        if range_str in FR.arg_canon(fn, P, cn, b, 0):
+            h = header_of(b)
+            if h is not None and h not in heads:
+                heads.append(h)
+    if getattr(P, 'cut_loops', False):
+        for (h, comp, l, lo, hi) in P.induction_loops():
+            if range_str in 'Range::Range{%s, %s}' % (cn.bound(lo), cn.bound(hi)) and h not in heads:
+                heads.append(h)
+    if containing_call and len(heads) > 1:
+        heads = [h for h in heads if any(fn.blocks[x]['term']['k'] == 'call' and fn.blocks[x]['term']['fn']['k'] == 'def' and last(fn.blocks[x]['term']['fn']['name']) == containing_call for x in nl[h])]
+    if defines and len(heads) > 1:
+        idx = {l.get('name'): i for i, l in enumerate(fn.locals) if l.get('name')}
+        want = {idx[n] for n in defines if n in idx}
         keep = []
-        for b in nx:
-            body = body_of(b)
-            if body and any(fn.blocks[x]['term']['k'] == 'call' and fn.blocks[x]['term']['fn']['k'] == 'def' and last(fn.blocks[x]['term']['fn']['name']) == containing_call for x in body):
-                keep.append(b)
-        nx = keep
-    if len(nx) != 1:
+        for h in heads:
+            d = {l for l, ds in P.defs.items() if any(b in nl[h] and k in ('full', 'call') for (b, i, k) in ds)}
+            if want and want <= d:
+                keep.append(h)
+        heads = keep
+    if len(heads) != 1:
         return None
-    loop = body_of(nx[0])
-    if loop is None:
-        return None
-    hdr = nx[0] if nx[0] in nl else min(((h, body) for h, body in nl.items() if nx[0] in body), key=lambda x: len(x[1]))[0]
+    hdr = heads[0]
+    loop = nl[hdr]
     latches = [p for p in fn.pred(hdr) if p in loop]
     return hdr, loop, latches
 
@@ -38,7 +55,7 @@ def transfer(fn, F, range_str, names, containing_call=None, innermost=True):
     values at the start of the iteration (`var:x@in`)"""
     P = Prov(fn, F, cut_loops=True)
     cn = Canon(fn, P)
-    fl = find_loop(fn, P, cn, range_str, containing_call)
+    fl = find_loop(fn, P, cn, range_str, containing_call, defines=names)
     if fl is None or len(fl[2]) != 1:
         return None
     hdr, loop, latches = fl
@@ -225,3 +242,91 @@ def fn_shape(fn, F):
     txt = '\n'.join(lines)
     txt = re.sub(r'\bSM[29]_', 'SMx_', txt)
     return txt
+
+
+def eval_small(e, env, depth=0):
+    """value of an integer/bool expression that depends only on the parameters in env (finite-domain case analysis of a
+    selector such as the SM3 round index); None when anything else is involved"""
+    from .prov import strip, const_int
+    e = strip(e)
+    if depth > 30:
+        return None
+    v = const_int(e) if e.k == 'const' else None
+    if v is not None:
+        return v
+    if e.k == 'param':
+        return env.get(e.name)
+    if e.k == 'cast' and e.args:
+        return eval_small(e.args[0], env, depth + 1)
+    if e.k == 'field' and e.name == '0' and e.args and strip(e.args[0]).k == 'binop' and strip(e.args[0]).name.endswith('WithOverflow'):
+        return eval_small(e.args[0], env, depth + 1)
+    if e.k == 'unop' and e.name == 'Not' and e.args:
+        a = eval_small(e.args[0], env, depth + 1)
+        if a is None:
+            return None
+        return (not a) if (e.ty or '').strip() == 'bool' or a in (True, False) else None
+    if e.k == 'phi':
+        vals = {eval_small(a, env, depth + 1) for a in e.args}
+        return vals.pop() if len(vals) == 1 else None
+    if e.k == 'binop' and len(e.args) == 2:
+        a = eval_small(e.args[0], env, depth + 1)
+        b = eval_small(e.args[1], env, depth + 1)
+        if a is None or b is None:
+            return None
+        n = e.name.replace('WithOverflow', '')
+        try:
+            return {'Lt': lambda: a < b, 'Le': lambda: a <= b, 'Gt': lambda: a > b, 'Ge': lambda: a >= b, 'Eq': lambda: a == b, 'Ne': lambda: a != b,
+                    'Add': lambda: a + b, 'Sub': lambda: a - b, 'Mul': lambda: a * b, 'BitAnd': lambda: a & b, 'BitOr': lambda: a | b, 'BitXor': lambda: a ^ b,
+                    'Rem': lambda: a % b if b else None, 'Div': lambda: a // b if b else None, 'Shr': lambda: a >> b, 'Shl': lambda: a << b}[n]()
+        except (KeyError, TypeError, ValueError):
+            return None
+    return None
+
+
+def piecewise(fn, F, pname, domain):
+    """{v: canonical returned expression} for every value v of the selector parameter `pname` in `domain`, by following,
+    for each v, the one path whose branch conditions (which must depend on the selector alone) hold.  None when a branch
+    depends on anything else, the function loops, or it calls something before returning a selected value."""
+    from .rules_g import ret_def_sites
+    P = Prov(fn, F)
+    cn = Canon(fn, P)
+    sites = {}
+    for b, i in ret_def_sites(fn):
+        if i == -1:
+            return None
+        st = fn.blocks[b]['stmts'][i]
+        sites.setdefault(b, []).append((i, cn.c(norm(P.rvalue(st['rv'], b, i, 0)))))
+    out = {}
+    for v in domain:
+        env = {pname: v}
+        b, steps, val = 0, 0, None
+        while True:
+            steps += 1
+            if steps > 300:
+                return None
+            bl = fn.blocks[b]
+            if b in sites:
+                val = sorted(sites[b])[-1][1]
+            t = bl['term']
+            k = t['k']
+            if k == 'return':
+                break
+            if k == 'goto':
+                b = t['target']
+            elif k == 'switch':
+                c = eval_small(P.operand(t['op'], b, len(bl['stmts'])), env)
+                if c is None:
+                    return None
+                c = int(c)
+                nxt = [tb for x, tb in t['targets'] if str(x) == str(c)]
+                b = nxt[0] if nxt else t['otherwise']
+            elif k in ('assert', 'drop') and t.get('target') is not None:
+                b = t['target']
+            elif k == 'call' and t.get('target') is not None:
+                b = t['target']
+            else:
+                return None
+        if val is None:
+            return None
+        out[v] = val
+    return out
